@@ -1,6 +1,6 @@
 (* Props/C10.v — property C10: append merges timing, scaling and properties by the documented rules only. *)
 From Coq Require Import ZArith List.
-From NV Require Import Common.Py Spec.TimingSpec Model.Timing Model.Waveform Proofs.WfmProofs Proofs.WfmProofs2 Proofs.C10Complete.
+From NV Require Import Common.Py Spec.TimingSpec Model.Timing Model.Waveform Proofs.WfmProofs Proofs.WfmProofs2 Proofs.C10Complete Proofs.C10Irregular.
 Open Scope Z_scope.
 
 (* a successful append: samples appended in order, dtypes / signal counts matched, NONE/REGULAR receivers
@@ -57,3 +57,24 @@ Theorem C10_append_must_succeed : forall o srcs,
     Ok (o', scale_warnings o srcs ++ (if has_timing (o_kind o) then timing_warnings (o_timing o) srcs else [])).
 Proof. exact append_waveforms_complete. Qed.
 Print Assumptions C10_append_must_succeed.
+
+(* the converse for IRREGULAR receivers: compatible IRREGULAR sources whose timestamps, put after the receiver's, keep
+   the whole sequence monotonic MUST be accepted - no timing warning - and the receiver ends up with exactly the
+   concatenated timestamps; when the concatenation is not monotonic the append is refused with ValueError *)
+Theorem C10_irregular_append_must_succeed : forall o srcs a,
+  Forall (src_compatible o) srcs -> has_timing (o_kind o) = true ->
+  t_mode (o_timing o) = 2 -> t_tss (o_timing o) = Some a -> Forall irregular_src srcs ->
+  monotone (a ++ flat_map stss srcs) = true ->
+  (o_resizable o = true \/ (o_start o + o_count o + fold_left (fun n s => (n + o_count s)%nat) srcs 0%nat <= cap o)%nat) ->
+  exists o', append_waveforms o srcs = Ok (o', scale_warnings o srcs)
+             /\ t_mode (o_timing o') = 2 /\ t_tss (o_timing o') = Some (a ++ flat_map stss srcs).
+Proof. exact append_waveforms_irregular_complete. Qed.
+Print Assumptions C10_irregular_append_must_succeed.
+Theorem C10_irregular_append_not_monotonic : forall o srcs a,
+  Forall (src_compatible o) srcs -> has_timing (o_kind o) = true ->
+  t_mode (o_timing o) = 2 -> t_tss (o_timing o) = Some a -> monotone a = true -> Forall irregular_src srcs ->
+  Forall (fun s => monotone (stss s) = true) srcs ->
+  monotone (a ++ flat_map stss srcs) = false ->
+  append_waveforms o srcs = Raise ValueError.
+Proof. exact append_waveforms_irregular_reject. Qed.
+Print Assumptions C10_irregular_append_not_monotonic.
